@@ -475,6 +475,7 @@ pub fn generate(seed: u64, idx: u64, thorough: bool) -> Case {
             bit_count,
             // (1..4 bits to prepare: 2, a count that does not divide them, more threads than bits, above 32)
             threads: if slot as usize == ops.len() + 3 { 1 } else { *rng.pick(&[2usize, 3, 4, 5, 33]) },
+            via_struct: false,
         })
     };
     Case {
